@@ -16,7 +16,13 @@ package main
 //     script-made channel up in the environment and receives from it until it is
 //     closed (host-read); in host-feed-read the host is also the producer: it sends
 //     the items on the first script-made channel and closes it;
-//   - the last call runs the closed-channel / failing-operation checks of tail().
+//   - the last call runs the closed-channel / failing-operation checks of tail();
+//   - library programs (round 6): the stage functions - optionally the consumer loops and
+//     the channels too - are defined by a first call that starts nothing and runs under a
+//     context of its own, which the host cancels when that call has returned (`ctx, cancel
+//     := context.With...; defer cancel()` around loading a library); the later calls start
+//     the stages with `go` and call the consumer functions. The context of a call governs
+//     that call: its release afterwards must not interrupt anything a later call does.
 //
 // Oracle: the same as for every pipeline (every message exactly once, per-sender
 // order, converted to the element types on the way, the last channel closed), plus:
@@ -203,6 +209,14 @@ func c16Stepped(r *rand.Rand, tier string) *c16Prog {
 	if hostFeeds {
 		m = 1 + r.Intn(2) // at least one script stage between the host's two ends
 	}
+	// library programs (two in five): the stage functions (and, in half of them, the
+	// consumer loop) are DEFINED by a call of their own that starts nothing, made under a
+	// context of its own which the host cancels as soon as that call has returned (see
+	// c16Execute, modes ctx-released / run-released); they are started and called by the
+	// later calls. A context governs the call it was handed to (and the goroutines that
+	// call started): releasing it after the call has returned must not touch the
+	// pipelines that later calls build from the functions it defined.
+	lib := r.Intn(5) < 2
 	els := c16ElemsOf(g.fam)
 	typ := g.srcTyp
 	chans := make([]string, m+1)
@@ -218,6 +232,7 @@ func c16Stepped(r *rand.Rand, tier string) *c16Prog {
 		}
 		lastEl = el
 	}
+	chanDecl := g.decl.String() // the channels; launch() appends the stage functions
 	g.p.final = typ
 	g.tag("stages:" + strconv.Itoa(m+2))
 	for i := 0; i < n; i++ {
@@ -272,20 +287,25 @@ func c16Stepped(r *rand.Rand, tier string) *c16Prog {
 		}
 		srcs[at] += f
 	}
-	srcs[0] = g.decl.String() + srcs[0]
-	for _, s := range srcs {
-		md := mode()
-		g.tag("starting-call:" + md)
-		g.p.pre = append(g.p.pre, c16Step{s, md})
-	}
+	funcDecl := g.decl.String()[len(chanDecl):]
 	// the consumer
 	cm := chans[m]
 	nm := c16Names{i: cm, o: "nil", k: "0", n: strconv.Itoa(n), pre: "m"}
+	// library programs: the consumer loops may be library functions too, called
+	// synchronously by the later calls
+	libCons := lib && (shape == "later-call" || shape == "split-consumer") && r.Intn(2) == 0
+	fnm := c16Names{i: "i", o: "nil", k: "k", n: "n", pre: "f"}
+	var consPre []c16Step
 	switch shape {
 	case "later-call":
 		form := g.pickRecv(true)
 		g.p.recvForm["int64(0)"] = form
-		g.main.WriteString(g.consumerBody(nm, form, false, ""))
+		if libCons {
+			funcDecl += "func consume(i, k, n) {\n" + indent(g.consumerBody(fnm, form, false, "")) + "}\n"
+			fmt.Fprintf(&g.main, "consume(%s, 0, %d)\n", cm, n)
+		} else {
+			g.main.WriteString(g.consumerBody(nm, form, false, ""))
+		}
 	case "split-consumer":
 		// a first call takes q messages with the receive expression, the main call the rest
 		q := 0
@@ -294,11 +314,21 @@ func c16Stepped(r *rand.Rand, tier string) *c16Prog {
 		}
 		md := mode()
 		g.tag("consumer-call:" + md)
-		g.p.pre = append(g.p.pre, c16Step{fmt.Sprintf("for mj = 0; mj < %d; mj++ { tick(0); %sitem(0, <-%s) }\n", q, g.jit(), cm), md})
+		first := fmt.Sprintf("for mj = 0; mj < %d; mj++ { tick(0); %sitem(0, <-%s) }\n", q, g.jit(), cm)
+		if libCons {
+			funcDecl += fmt.Sprintf("func take(i, q) { for fj = 0; fj < q; fj++ { tick(0); %sitem(0, <-i) } }\n", g.jit())
+			first = fmt.Sprintf("take(%s, %d)\n", cm, q)
+		}
+		consPre = append(consPre, c16Step{first, md})
 		form := g.pickRecv(true)
 		g.p.recvForm["int64(0)"] = form
 		nm.n = strconv.Itoa(n - q)
-		g.main.WriteString(g.recvLoop(nm, form, func(v string) string { return "item(0, " + v + ")" }))
+		if libCons {
+			funcDecl += "func rest(i, k, n) {\n" + indent(g.recvLoop(fnm, form, func(v string) string { return "item(k, " + v + ")" })) + "}\n"
+			fmt.Fprintf(&g.main, "rest(%s, 0, %d)\n", cm, n-q)
+		} else {
+			g.main.WriteString(g.recvLoop(nm, form, func(v string) string { return "item(0, " + v + ")" }))
+		}
 	default:
 		io := &c16HostIO{read: cm, consumer: "int64(0)"}
 		if hostFeeds {
@@ -310,6 +340,34 @@ func c16Stepped(r *rand.Rand, tier string) *c16Prog {
 		g.p.hostIO = io
 		g.p.recvForm["int64(0)"] = "host"
 	}
+	// the calls, in order: [library] starting calls, [first consumer call], main call
+	if lib {
+		md := []string{"ctx-released", "run-released"}[r.Intn(2)]
+		libSrc := funcDecl
+		if r.Intn(2) == 0 || funcDecl == "" {
+			// the channels are made by the library call as well
+			libSrc = chanDecl + funcDecl
+			g.tag("library:makes-channels")
+		} else {
+			srcs[0] = chanDecl + srcs[0]
+		}
+		g.tag("library-call:" + md)
+		if libCons {
+			g.tag("library:consumer")
+		}
+		if funcDecl != "" {
+			g.tag("library:functions")
+		}
+		g.p.pre = append(g.p.pre, c16Step{libSrc, md})
+	} else {
+		srcs[0] = chanDecl + funcDecl + srcs[0]
+	}
+	for _, s := range srcs {
+		md := mode()
+		g.tag("starting-call:" + md)
+		g.p.pre = append(g.p.pre, c16Step{s, md})
+	}
+	g.p.pre = append(g.p.pre, consPre...)
 	g.p.mainMode = mode()
 	g.tag("main-call:" + g.p.mainMode)
 	g.tail(cm, lastEl, g.fam)
